@@ -442,6 +442,22 @@ reg('PureBosonicExt.get_boundary',
     _c_pureb, None, weight=0.6, heavy=True, solver=True, branch=lambda a: a['distance_kind'])
 
 
+def _c_check_ud(nq, a, s, ctx=None):
+    pg = nq.gate.get_pauli_group(a['num_qubit'], kind='numpy')
+    mat_list = np.ascontiguousarray(pg[list(a['index'])])
+    tag, loss = nq.unique_determine.check_UD(a['kind'], mat_list, num_repeat=a['num_repeat'], converge_tol=1e-5, dtype=a['dtype'], num_worker=1, seed=s)
+    return {'tag': bool(tag), 'loss': float(loss)}
+
+
+def _g_check_ud(r):
+    n = r.choice([1, 2])
+    tot = 4 ** n
+    k = r.randint(2, min(tot - 1, 7))
+    return {'num_qubit': n, 'index': [0] + sorted(r.sample(range(1, tot), k - 1)), 'kind': r.choice(['uda', 'udp']), 'num_repeat': r.randint(1, 3), 'dtype': r.choice(['float32', 'float64'])}
+
+
+reg('unique_determine.check_UD', _g_check_ud, _c_check_ud, None, weight=0.6, heavy=True, branch=lambda a: f"{a['kind']},{a['dtype']}")
+
 LIGHT = [k for k, v in R.items() if not v['heavy']]
 HEAVY = [k for k, v in R.items() if v['heavy']]
 
